@@ -330,7 +330,10 @@ def predicted_leaves(scn):
 
 
 def domain_ok(scn):
-  for p in plan(scn):
+  # the first pass of quantize_model asks for a kernel decision for every registered layer, selected by
+  # layer_indexes or not: an empty offer anywhere (limit below the smallest configured quantizer) is
+  # outside the domain whatever the selection
+  for p in plan(dict(scn, layer_indexes=None)):
     for r in p["roles"].values():
       if not r["allowed"]:
         return False
@@ -402,6 +405,13 @@ def scenario_templates(rnd):
   T.append(("tune_layer_chain.conv", lambda r: base(
       "conv", {"Conv2D": _lim3(r), "DepthwiseConv2D": _lim3(r), "Dense": _lim3(r)}, tune="layer", exc="^(out|c1)$",
       lean=True)))
+  T.append(("empty_selection.mlp_inline", lambda r: base(
+      "mlp_inline", {"Dense": _lim3(r), "Activation": [r.choice(BITS[1:])]}, layer_indexes=[])))
+  T.append(("empty_selection.conv", lambda r: base(
+      "conv", {"Conv2D": _lim3(r), "DepthwiseConv2D": _lim3(r), "Dense": _lim3(r), "Activation": [r.choice(BITS[1:])]},
+      layer_indexes=[], tune=r.choice(["none", "layer"]), exc="^out$", lean=True)))
+  T.append(("single_index.mlp_branch", lambda r: base(
+      "mlp_branch", {"Dense": _lim3(r), "Activation": [r.choice(BITS[1:])]}, layer_indexes=[r.choice([0, 1, 2, 3, 5])])))
   T.append(("ctor_default_exceptions.mlp_inline", lambda r: base(
       "mlp_inline", {"Dense": _lim3(r)}, exc=None)))
   T.append(("limit_at_minimum.mlp_inline", lambda r: base("mlp_inline", "AT_MINIMUM")))
